@@ -396,9 +396,16 @@ func c18jail(c *Ctx) {
 	// jail branch
 	okJail := false
 	why := "no branch at count == maxLoginAttempts that arms the jail"
-	if afterFunc != nil && wgAdd != nil && afterFunc.uncond && wgAdd.uncond {
-		// branch condition: atomic.AddInt32(&loginErrorCount,1) ==/!= const
-		for _, b := range f.Blocks {
+	if afterFunc != nil && wgAdd != nil && ((afterFunc.uncond && wgAdd.uncond) || afterFunc.fn == wgAdd.fn) {
+		// branch condition: atomic.AddInt32(&loginErrorCount,1) ==/!= const - in getUserID, or in the Backend helper
+		// that both counts the failure and arms the jail
+		bf := f
+		aSite, wSite := afterFunc.site, wgAdd.site
+		if afterFunc.fn == wgAdd.fn && afterFunc.fn != f && !(afterFunc.uncond && wgAdd.uncond) {
+			bf = afterFunc.fn
+			aSite, wSite = afterFunc.in, wgAdd.in
+		}
+		for _, b := range bf.Blocks {
 			iff := engine.IfOf(b)
 			if iff == nil {
 				continue
@@ -423,7 +430,7 @@ func c18jail(c *Ctx) {
 			if bin.Op == token.NEQ {
 				eqEdge = 1
 			}
-			if engine.EdgeDominates(b, eqEdge, afterFunc.site.Block()) && engine.EdgeDominates(b, eqEdge, wgAdd.site.Block()) {
+			if engine.EdgeDominates(b, eqEdge, aSite.Block()) && engine.EdgeDominates(b, eqEdge, wSite.Block()) {
 				okJail = true
 			}
 		}
@@ -731,29 +738,85 @@ func (c *Ctx) stateFromSuccessfulGetState(f *ssa.Function, v ssa.Value, at *ssa.
 // c18dsnPathEscaped (R18.8): two users never share a database file through URI decoding.
 func c18dsnPathEscaped(c *Ctx) {
 	P, R := c.P, c.R
-	R.Explain("R18.8", "one database file per user: wherever the sqlite3 package formats a `file:` URI for sql.Open, the file name placed into it is the result of net/url PathEscape (the escaping SQLite's URI decoder undoes).  A hand-made partial escaper leaves `%xx` sequences of a user id or directory name to be decoded by SQLite, so that two different users (`a%2fb` and the path `a/b`, `x%3fy`...) open the same file - a session would see and change another user's mailboxes.")
+	R.Explain("R18.8", "one database file per user: in the data source name handed to sql.Open for sqlite (a `file:` URI, followed through Sprintf, concatenation and helpers) every non-constant part is the result of net/url PathEscape (the escaping SQLite's URI decoder undoes).  A hand-made partial escaper leaves `%xx` sequences of a user id or directory name to be decoded by SQLite, so that two different users (`a%2fb` and the path `a/b`, `x%3fy`...) open the same file - a session would see and change another user's mailboxes.")
 	n := 0
-	for _, f := range c.funcsInPkg("internal/db_impl/sqlite3") {
+	for _, f := range c.productFuncs() {
 		for _, cs := range engine.Calls(f) {
 			sc := cs.Common().StaticCallee()
-			if sc == nil || engine.PkgPathOf(sc) != "fmt" || sc.Name() != "Sprintf" || len(cs.Common().Args) < 2 {
+			if sc == nil || engine.ShortName(sc) != "Open" || engine.PkgPathOf(sc) != "database/sql" || len(cs.Common().Args) != 2 {
 				continue
 			}
-			format, ok := engine.ConstString(cs.Common().Args[0])
-			if !ok || !strings.HasPrefix(format, "file:") {
+			if drv, ok := engine.ConstString(cs.Common().Args[0]); !ok || !strings.Contains(drv, "sqlite") {
+				continue
+			}
+			// flatten the data source name into its constant and non-constant pieces
+			isURI := false
+			bad := ""
+			seen := map[ssa.Value]bool{}
+			var walk func(v ssa.Value, d int)
+			walk = func(v ssa.Value, d int) {
+				if v == nil || seen[v] || d > 12 {
+					return
+				}
+				seen[v] = true
+				v = stripIface(v)
+				switch t := v.(type) {
+				case *ssa.Const:
+					if s, ok := engine.ConstString(t); ok && strings.Contains(s, "file:") {
+						isURI = true
+					}
+				case *ssa.BinOp:
+					walk(t.X, d+1)
+					walk(t.Y, d+1)
+				case *ssa.Phi:
+					for _, e := range t.Edges {
+						walk(e, d+1)
+					}
+				case *ssa.Call:
+					g := t.Call.StaticCallee()
+					switch {
+					case g != nil && engine.PkgPathOf(g) == "net/url" && g.Name() == "PathEscape":
+						// the escaped file name
+					case g != nil && engine.PkgPathOf(g) == "fmt" && g.Name() == "Sprintf":
+						walk(t.Call.Args[0], d+1)
+						for _, a := range sprintfArgs(t.Common(), 1) {
+							walk(a, d+1)
+						}
+					case g != nil && len(g.Blocks) > 0 && P.IsOwn(g):
+						for _, r := range engine.Returns(g) {
+							if len(r.Results) > 0 {
+								walk(engine.ResultOf(r, 0), d+1)
+							}
+						}
+					default:
+						bad = P.Pos(t.Pos())
+					}
+				case *ssa.UnOp:
+					if al, ok := t.X.(*ssa.Alloc); ok {
+						for _, st := range engine.StoresTo(al) {
+							walk(st.Val, d+1)
+						}
+						return
+					}
+					if g, ok := t.X.(*ssa.Global); ok {
+						_ = g // package-level constant-like option strings
+						return
+					}
+					bad = P.Pos(t.Pos())
+				default:
+					// a parameter or any other non-constant piece that was not escaped
+					bad = P.Pos(v.Pos())
+					if bad == "?" || bad == "" {
+						bad = v.String()
+					}
+				}
+			}
+			walk(cs.Common().Args[1], 0)
+			if !isURI {
 				continue
 			}
 			n++
-			args := sprintfArgs(cs.Common(), 1)
-			good := len(args) > 0
-			for _, a := range args {
-				a = stripIface(a)
-				call, isCall := a.(*ssa.Call)
-				if !isCall || call.Call.StaticCallee() == nil || engine.PkgPathOf(call.Call.StaticCallee()) != "net/url" || call.Call.StaticCallee().Name() != "PathEscape" {
-					good = false
-				}
-			}
-			R.Check(good, "R18.8", c.name(f)+"|file: URI", P.Pos(cs.Pos()), "the file name is url.PathEscape'd", "the file name put into the SQLite `file:` URI is not the result of url.PathEscape: percent sequences in a user id or directory are decoded by SQLite and can name another user's database")
+			R.Check(bad == "", "R18.8", c.name(f)+"|file: URI", P.Pos(cs.Pos()), "every non-constant part of the data source name is url.PathEscape'd", "a non-constant part of the SQLite `file:` URI ("+bad+") is not the result of url.PathEscape: percent sequences in a user id or directory are decoded by SQLite and can name another user's database")
 		}
 	}
 	R.Min("R18.8", "`file:` URIs built in the sqlite3 package", n, 1)
